@@ -430,6 +430,10 @@ def _v_scandir(path="."):
             if r is not None:
                 vk.access("scandir", p)
                 if r[0] == "r":
+                    if vk.list_order is not None:
+                        with _real["scandir"](r[1]) as it:
+                            ents = {e.name: e for e in it}
+                        return _ScandirCtx(iter([ents[n] for n in vk.list_order(p, list(ents))]))
                     return _real["scandir"](r[1])
                 raise NotImplementedError("scandir on the in-memory procfs is not needed by psutil")
     return _real["scandir"](path)
